@@ -18,10 +18,14 @@ structure Cfg where
   idxCheck : Bool
   /-- `Commit.Height()/Round()` return 0 instead of dereferencing a nil `FirstPrecommit()` -/
   nilCommit : Bool
+  /-- `VerifyCommit` requires every precommit to carry the index and the address of the validator
+      in whose slot it sits (repaired); as found only the signature is checked against the slot's
+      key, and the sign bytes cover neither field -/
+  slotCheck : Bool
   deriving Repr, DecidableEq
 
-def repaired : Cfg := ⟨true, true, true⟩
-def asFound : Cfg := ⟨false, false, false⟩
+def repaired : Cfg := ⟨true, true, true, true⟩
+def asFound : Cfg := ⟨false, false, false, false⟩
 
 structure BlockID where
   hash : Bytes
@@ -208,20 +212,21 @@ def firstPrecommit : List (Option Vote) → Option Vote
   | none :: t => firstPrecommit t
 
 inductive VErr where
-  | ok | size | height | pheight | pround | ptype | sig | power | panic
+  | ok | size | height | pheight | pround | ptype | sig | slot | power | panic
   deriving Repr, DecidableEq
 
 /-- the loop of `VerifyCommit`: returns the tallied power or the first error -/
-def tallyCommit (sigok : Nat → Vote → Bool) (b : BlockID) (height round : Int) :
+def tallyCommit (slot : Bool) (sigok : Nat → Vote → Bool) (b : BlockID) (height round : Int) :
     Nat → List Validator → List (Option Vote) → Int → Except VErr Int
   | i, val :: vals, some p :: ps, acc =>
     if p.height ≠ height then .error .pheight
     else if p.round ≠ round then .error .pround
     else if p.type ≠ 2 then .error .ptype
     else if !sigok i p then .error .sig
-    else if b = p.bid then tallyCommit sigok b height round (i + 1) vals ps (acc + val.power)
-    else tallyCommit sigok b height round (i + 1) vals ps acc
-  | i, _ :: vals, none :: ps, acc => tallyCommit sigok b height round (i + 1) vals ps acc
+    else if slot ∧ (p.idx ≠ (i : Int) ∨ p.addr ≠ val.addr) then .error .slot
+    else if b = p.bid then tallyCommit slot sigok b height round (i + 1) vals ps (acc + val.power)
+    else tallyCommit slot sigok b height round (i + 1) vals ps acc
+  | i, _ :: vals, none :: ps, acc => tallyCommit slot sigok b height round (i + 1) vals ps acc
   | _, _, _, acc => .ok acc
 
 /-- `ValidatorSet.VerifyCommit(chainID, blockID, height, commit)`. A commit whose precommits are all
@@ -240,7 +245,7 @@ def verifyCommit (cfg : Cfg) (sigok : Nat → Vote → Bool) (vals : List Valida
       else (if 0 > total vals * 2 / 3 then .ok else .power)
     | _ :: _, some f =>
       if height ≠ f.height then .height
-      else match tallyCommit sigok b height f.round 0 vals c.precommits 0 with
+      else match tallyCommit cfg.slotCheck sigok b height f.round 0 vals c.precommits 0 with
         | .error e => e
         | .ok t => if t > total vals * 2 / 3 then .ok else .power
 
